@@ -21,6 +21,36 @@ CHECKS = {
          'must return a row the model\'s scan LookupAllowed(rows, key) permits, else KeyError/default.',
     ref='DESIGN.md 5/C15', technique='TLA+ spec GridSeq (LookupAllowed as a scan of the current rows) + TLC edge generation and trace validation',
     note='numeric g[key] is positional and excluded; in-place edits of a stored row are excluded (reindex() is documented for that)'),
+
+ 'C13': dict(
+    text='TLC model-checks spec/FilterCache.tla (threads x counter x namespace x LRU x wrapper finalisers): the atomic-allocation design satisfies '
+         'NoCrossTalk/GetNeverFails/NamesUnique/CachedWorks for every interleaving (2 threads quick, 3 thorough) and the non-atomic variant must '
+         'produce the race.  Real threads are driven through every schedule with <=2 pre-emptions at source-line granularity (3 threads / deeper '
+         'sampled) by a deterministic scheduler; each execution trace (namespace, cache size, hits, misses, returned rows) is validated by TLC '
+         'against Trace_FilterCache.tla; sequential histories around the real capacity are validated with K=capacity.',
+    ref='DESIGN.md 5/C13, Appendix C', technique='TLA+ spec FilterCache + TLC exhaustive model check; deterministic schedule enumeration on real threads; TLC trace validation with unlogged state',
+    note='pre-emption at source lines of grid_filter.py / Grid.filter only; concurrent scenarios use a maxsize=2 re-wrap of the cache; a schedule is a VIOLATION only if TLC rejects it AND some returned result is wrong/raises (pure conformance deviations are reported but do not fail)'),
+ 'C17': dict(
+    text='spec/TzCodec.tla (zones as transition tables, civil calendar arithmetic, date-time reader/writer, name-map fold, fixed-offset fallback) is model-checked '
+         '(RoundTrip, NameBijective, FallbackSound, calendar laws); every mapped zone x transitions x deltas x formats is dumped/parsed by hszinc and TLC '
+         're-derives instant/offset/zone from the emitted text and judges both directions; the map is recomputed by TLC from pytz.all_timezones.',
+    ref='DESIGN.md 5/C17', technique='TLA+ spec TzCodec + TLC model check; TLC trace validation of dump/parse events over all zones and transitions',
+    note='pytz transition tables define each zone; quick tier samples transitions per zone, thorough is exhaustive over all tabulated transitions'),
+ 'C18': dict(
+    text='spec/Version.tla (Parse, Cmp, HashKey, Nearest, grammar-cache machine) is model-checked for the order laws over the bounded version set; all ordered pairs '
+         '(six operators, string right-hand sides, hash, nearest, constructor) and all triples of a subset are evaluated on the real code and judged by TLC from the code points.',
+    ref='DESIGN.md 5/C18', technique='TLA+ spec Version + TLC check of order laws; TLC validation of all pairs/triples evaluated on the code',
+    note='version strings with <=3 groups over {0,1,2,3,10} x 5 suffixes (775 strings), plus seeded random ones in thorough'),
+ 'C19': dict(
+    text='spec/ValueEq.tla (kind-aware Eq/Ne decision table, HashKey, GridEq, one-position mutations) is model-checked for the relation laws; all ordered pairs and triples of a '
+         'catalogue of real values and TLC-generated grid mutants are evaluated on the real code and judged by TLC.',
+    ref='DESIGN.md 5/C19', technique='TLA+ spec ValueEq + TLC check of relation laws; TLC-generated grid mutants replayed; TLC validation of all catalogue pairs',
+    note='catalogue of ~134 values (189 thorough); bool==number and Quantity==number by value are named deviations; XStr type-name-only differences not judged'),
+ 'C20': dict(
+    text='spec/QtyOps.tla (Python binary-operator dispatch protocol with uninterpreted arithmetic) is model-checked: every path ends in Apply with operands unwrapped and in original order, '
+         'or in the unit-mismatch TypeError; all operators x configurations x catalogue operand pairs are evaluated wrapped and raw on the real code and TLC judges the outcome tokens.',
+    ref='DESIGN.md 5/C20', technique='TLA+ spec QtyOps + TLC model check of the dispatch machine (and faulty variants); TLC validation of all operator/operand outcomes',
+    note='the arithmetic itself is Python on both sides; BasicQuantity only (pint mode out of scope)'),
 }
 NOT_YET = {}
 
